@@ -95,6 +95,8 @@ def main(argv):
         sims = tp.gen(chk, 'U4', (200 if thorough else 60), 45, seed + 1) + tp.gen(chk, 'U3', (200 if thorough else 60), 40, seed + 2)
         sims += tp.gen(chk, 'R3', (200 if thorough else 60), 45, seed + 3) + tp.gen(chk, 'R3b', (200 if thorough else 60), 45, seed + 4)
         sims += tp.gen(chk, 'R3', (100 if thorough else 30), 45, seed + 5, race=True)
+        for at in pipeline.attack_scripts('C04', 'TxPipeline'):
+            sims.append({'id': at['id'], 'uni': at.get('uni', 'U3'), 'race': False, 'steps': at['steps'], 'attack': at.get('attack')})
         old = chk.violation
 
         r2 = tp.run(chk, sims, TX_FORMULAS)
